@@ -5,7 +5,8 @@
    zone-less boost ptime); its calendar day is `t / day_secs` (floor), midnight after it is
    `(t / day_secs + 1) * day_secs` (timelog.cc:139-140: datetime_t(date, 23:59:59) + 1 s).
    The fixed-column reading of `i`/`o`/`I`/`O` lines (textual.cc:467-523) is glue: it hands a
-   time_xact_t (timestamp, capitalised?, account, description) to clock_in / clock_out.
+   time_xact_t (timestamp, capitalised?, account, description) to clock_in / clock_out; a line that
+   ends after the timestamp is a check-in to the account named "" or a check-out with account NULL.
    An account is account_t* in the code: NULL or the unique node of a full name; pointer equality
    is name equality.  Notes (`; ...` after the description) are not modelled. *)
 From LedgerV Require Import Base.Prelude.
